@@ -1,1 +1,355 @@
-"""placeholder"""
+"""R-MAG: every bare-number extraction from a unit-carrying value happens in a statically fixed unit or in a
+scale-invariant context (DESIGN §4.3, §5.B). Intra-procedural, syntactic unit evaluator with an attribute-unit table."""
+import ast
+
+from . import rule
+from ..frontend import AnalysisError, norm, is_property
+from ..report import Finding, RuleResult
+
+DISPLAY_FUNCS = {"__str__", "__repr__", "plot", "_round_series_values", "key_value_to_str",
+                 "plot_footprints_by_category_and_object", "plot_emission_diffs", "plot_baseline_and_simulation_dfs",
+                 "format_co2_amount", "display_co2_amount"}
+DISPLAY_FILES = ("utils/plot_", "utils/tools.py", "utils/graph_tools.py", "utils/calculus_graph.py",
+                 "utils/object_relationships_graphs.py")
+EXEMPT = {
+    ("ExplainableQuantity", "magnitude"): "accessor: the definition of .magnitude for explainable quantities; its uses "
+                                          "are the sites this rule checks",
+    ("ExplainableHourlyQuantities", "value_as_float_list"): "accessor with no caller in the package",
+}
+UNIT_PRESERVING = {"set_label", "copy", "abs", "ceil", "max", "min", "sum", "mean", "np_compared_with",
+                   "generate_explainable_object_with_logical_dependency", "round", "cumsum"}
+EQUIVARIANT_NP = {"abs", "maximum", "minimum", "negative"}
+UNIT_PARAMETRIC_NP = {"ceil", "round", "floor", "rint"}
+
+
+def _is_uexpr(e):
+    """expression over unit-registry constants: u.kg, u.kWh / u.GB, u("GB") with a literal"""
+    if isinstance(e, ast.Attribute) and isinstance(e.value, ast.Name) and e.value.id == "u":
+        return True
+    if isinstance(e, ast.BinOp) and isinstance(e.op, (ast.Mult, ast.Div, ast.Pow)):
+        return (_is_uexpr(e.left) or isinstance(e.left, ast.Constant)) and (_is_uexpr(e.right) or isinstance(e.right, ast.Constant))
+    if isinstance(e, ast.Call) and isinstance(e.func, ast.Name) and e.func.id == "u" and e.args \
+            and isinstance(e.args[0], ast.Constant):
+        return True
+    return False
+
+
+class Units:
+    def __init__(self, pm):
+        self.pm = pm
+        self.attr_memo = {}
+
+    def enclosing(self, n):
+        fn = cls = None
+        x = n
+        while x is not None:
+            if isinstance(x, ast.FunctionDef) and fn is None:
+                fn = x
+            if isinstance(x, ast.ClassDef) and cls is None:
+                cls = x
+            x = getattr(x, "_parent", None)
+        return fn, cls
+
+    def local_defs(self, fn, name):
+        out = []
+        for n in ast.walk(fn):
+            if isinstance(n, ast.Assign):
+                for t in n.targets:
+                    if isinstance(t, ast.Name) and t.id == name:
+                        out.append(n.value)
+            if isinstance(n, ast.AugAssign) and isinstance(n.target, ast.Name) and n.target.id == name:
+                out.append(None)      # x op= y keeps x's unit for + and -, unknown otherwise; treated as keep
+        return out
+
+    def unit_of(self, e, fn, cls, depth=0):
+        """('fixed', text) | None"""
+        if depth > 12 or e is None:
+            return None
+        U = lambda x: self.unit_of(x, fn, cls, depth + 1)
+        if isinstance(e, ast.Call):
+            f = e.func
+            if isinstance(f, ast.Attribute):
+                if f.attr == "to" and e.args:
+                    if _is_uexpr(e.args[0]):
+                        return ("fixed", norm(e.args[0]))
+                    if norm(e.args[0]) == "self.unit":
+                        return ("fixed", "self.unit")
+                    return None
+                if f.attr in UNIT_PRESERVING:
+                    return U(f.value)
+                if f.attr in ("reindex", "to_numpy", "shift", "fillna"):
+                    return U(f.value)
+            if isinstance(f, ast.Name):
+                if f.id in ("copy", "round") and e.args:
+                    return U(e.args[0])
+                if f.id in ("ExplainableQuantity", "SourceValue") and e.args:
+                    return U(e.args[0])
+                if f.id in ("ExplainableHourlyQuantities", "SourceHourlyValues") and e.args:
+                    return U(e.args[0])
+            if norm(f) in ("pd.DataFrame", "pint_pandas.PintArray"):
+                for n in ast.walk(e):
+                    if isinstance(n, ast.keyword) and n.arg == "dtype":
+                        if _is_uexpr(n.value):
+                            return ("fixed", norm(n.value))
+                        if norm(n.value) == "self.unit":
+                            return ("fixed", "self.unit")
+                return None
+            return None
+        if isinstance(e, ast.BinOp):
+            if isinstance(e.op, ast.Mult):
+                # <number> * u.X
+                if _is_uexpr(e.right) and not _is_uexpr(e.left):
+                    return ("fixed", norm(e.right))
+                if _is_uexpr(e.left) and not _is_uexpr(e.right):
+                    return ("fixed", norm(e.left))
+                l, r = U(e.left), U(e.right)
+                if l and r:
+                    return ("fixed", f"({l[1]})*({r[1]})")
+                return None
+            if isinstance(e.op, ast.Div):
+                l, r = U(e.left), U(e.right)
+                if l and r:
+                    return ("fixed", f"({l[1]})/({r[1]})")
+                return None
+            if isinstance(e.op, (ast.Add, ast.Sub)):
+                return U(e.left)
+            return None
+        if isinstance(e, ast.UnaryOp):
+            return U(e.operand)
+        if isinstance(e, ast.Subscript):
+            return U(e.value)       # df["value"], series[...] keep the unit
+        if isinstance(e, ast.Attribute):
+            if e.attr in ("value", "values", "pint", "data", "iloc", "loc"):
+                return U(e.value)
+            if isinstance(e.value, ast.Name) and e.value.id == "self" and cls is not None:
+                return self.attr_unit(cls.name, e.attr)
+            return None
+        if isinstance(e, ast.Name) and fn is not None:
+            defs = self.local_defs(fn, e.id)
+            real = [d for d in defs if d is not None]
+            if not real:
+                return None
+            us = [U(d) for d in real]
+            if all(u is not None for u in us) and len({u[1] for u in us}) == 1:
+                return us[0]
+            return None
+        return None
+
+    def attr_unit(self, cn, attr):
+        """unit a calculated attribute (or a property) of class cn is left in by its rule, over cn and its public
+        subclasses; None if any of them leaves it in a unit that is not statically fixed"""
+        key = (cn, attr)
+        if key in self.attr_memo:
+            return self.attr_memo[key]
+        self.attr_memo[key] = None
+        pm = self.pm
+        classes = [c for c in ([cn] + pm.subclasses(cn)) if c in pm.ALL] or [cn]
+        us = []
+        for c in classes:
+            owner, prop = pm.find_method(c, attr)
+            if prop is not None and is_property(prop):
+                rets = [r.value for r in ast.walk(prop) if isinstance(r, ast.Return) and r.value is not None]
+                us += [self.unit_of(r, prop, pm.classes[owner].node) for r in rets]
+                continue
+            if attr not in pm.calc(c):
+                us.append(None)      # an input: the user chooses the unit
+                continue
+            owner, fn = pm.find_method(c, "update_" + attr)
+            if fn is None:
+                us.append(None)
+                continue
+            ws = [n for n in ast.walk(fn) if isinstance(n, ast.Assign) and any(
+                isinstance(t, ast.Attribute) and isinstance(t.value, ast.Name) and t.value.id == "self" and t.attr == attr
+                for t in n.targets)]
+            if not ws:
+                # written through a dispatched helper (update_nb_of_instances -> *_update_nb_of_instances)
+                for n in ast.walk(pm.classes[owner].node):
+                    if isinstance(n, ast.Assign) and any(
+                            isinstance(t, ast.Attribute) and isinstance(t.value, ast.Name) and t.value.id == "self"
+                            and t.attr == attr for t in n.targets):
+                        f2 = n
+                        while not isinstance(f2, ast.FunctionDef):
+                            f2 = f2._parent
+                        if f2.name != "__init__":
+                            ws.append(n)
+            for w in ws:
+                f2 = w
+                while not isinstance(f2, ast.FunctionDef):
+                    f2 = f2._parent
+                if isinstance(w.value, ast.Call) and norm(w.value.func) == "EmptyExplainableObject":
+                    continue      # an empty value has no magnitude to extract
+                us.append(self.unit_of(w.value, f2, pm.classes[owner].node))
+        if us and all(u is not None for u in us) and len({u[1] for u in us}) == 1:
+            self.attr_memo[key] = us[0]
+        return self.attr_memo[key]
+
+
+def _strip(e):
+    """receiver of an extraction without the pandas plumbing"""
+    while True:
+        if isinstance(e, ast.Attribute) and e.attr in ("values", "pint", "data", "_data"):
+            e = e.value
+        elif isinstance(e, ast.Subscript):
+            e = e.value
+        else:
+            return e
+
+
+def _is_display(rel, fn):
+    if any(d in rel for d in DISPLAY_FILES):
+        return True
+    x = fn
+    while x is not None:
+        if isinstance(x, ast.FunctionDef) and x.name in DISPLAY_FUNCS:
+            return True
+        x = getattr(x, "_parent", None)
+    return False
+
+
+@rule("R-MAG")
+def r_mag(E):
+    pm = E.pm
+    res = RuleResult("R-MAG", "every extraction of a bare number from a unit-carrying value (.magnitude, .m, ._data, "
+                              ".values.data, .to_numpy()) has a receiver in a statically fixed unit, or sits in a "
+                              "scale-invariant context (comparison with 0, equivariant re-wrap in the receiver's own "
+                              "unit, value emitted next to its unit); ceil/round need a fixed unit at each call site")
+    UN = Units(pm)
+    counts = {}
+    for mod, (rel, tree, src) in sorted(pm.modules.items()):
+        for n in ast.walk(tree):
+            sink = None
+            if isinstance(n, ast.Attribute) and n.attr in ("magnitude", "m", "_data"):
+                sink = n
+            elif isinstance(n, ast.Attribute) and n.attr == "data" and isinstance(n.value, ast.Attribute) \
+                    and n.value.attr == "values":
+                sink = n
+            elif isinstance(n, ast.Call) and isinstance(n.func, ast.Attribute) and n.func.attr == "to_numpy":
+                # only when it is not already the continuation of another sink
+                if not any(isinstance(x, ast.Attribute) and x.attr in ("magnitude", "_data", "data") for x in ast.walk(n.func.value)):
+                    sink = n.func
+            if sink is None:
+                continue
+            if isinstance(sink, ast.Attribute) and sink.attr == "m" and not isinstance(getattr(sink, "ctx", None), ast.Load):
+                continue
+            fn, cls = UN.enclosing(n)
+            if fn is None:
+                continue
+            if _is_display(rel, fn):
+                counts["display (excluded)"] = counts.get("display (excluded)", 0) + 1
+                continue
+            q = f"{cls.name}.{fn.name}" if cls is not None else fn.name
+            if cls is not None and (cls.name, fn.name) in EXEMPT:
+                res.notes.append(f"{q}: exempt — {EXEMPT[(cls.name, fn.name)]}")
+                counts["exempt accessor"] = counts.get("exempt accessor", 0) + 1
+                continue
+            res.instances += 1
+            recv = sink.value
+            verdict = None
+            # 1. receiver in a fixed unit
+            u = UN.unit_of(recv, fn, cls)
+            if u is not None and u[1] != "self.unit":
+                verdict = f"fixed unit {u[1]}"
+            # 2. compared with zero
+            par = getattr(n, "_parent", None)
+            top = n
+            while isinstance(par, (ast.Attribute, ast.Call)) and not isinstance(par, ast.Compare):
+                top, par = par, getattr(par, "_parent", None)
+            if verdict is None and isinstance(par, ast.Compare) and len(par.comparators) == 1:
+                other = par.comparators[0] if par.left is top else par.left
+                if isinstance(other, ast.Constant) and other.value == 0:
+                    verdict = "sign / zero test (scale-invariant)"
+            # 3. value emitted next to its own unit (serialisation)
+            if verdict is None:
+                d = n
+                while d is not None and not isinstance(d, (ast.Dict, ast.FunctionDef)):
+                    d = getattr(d, "_parent", None)
+                if isinstance(d, ast.Dict) and any(isinstance(k, ast.Constant) and k.value == "unit" for k in d.keys):
+                    verdict = "emitted together with str(units) (serialisation)"
+            # 4. equivariant operation re-wrapped in the receiver's own unit
+            if verdict is None:
+                wrap = n
+                while wrap is not None and not (isinstance(wrap, ast.Call) and norm(wrap.func) == "pint_pandas.PintArray"):
+                    wrap = getattr(wrap, "_parent", None)
+                local_target = None
+                if wrap is None:
+                    st = n
+                    while st is not None and not isinstance(st, ast.Assign):
+                        st = getattr(st, "_parent", None)
+                    if st is not None and isinstance(st.targets[0], ast.Name):
+                        local_target = st.targets[0].id
+                        # the local flows into a PintArray(..., dtype=self.unit) through np.maximum / np.minimum
+                        for w in ast.walk(fn):
+                            if isinstance(w, ast.Call) and norm(w.func) == "pint_pandas.PintArray" and any(
+                                    k.arg == "dtype" and norm(k.value) == "self.unit" for k in w.keywords):
+                                srcs = {x.id for x in ast.walk(w) if isinstance(x, ast.Name)}
+                                flows = {local_target}
+                                for a in ast.walk(fn):
+                                    if isinstance(a, ast.Assign) and isinstance(a.targets[0], ast.Name) and any(
+                                            isinstance(x, ast.Name) and x.id in flows for x in ast.walk(a.value)):
+                                        ops = {norm(c.func) for c in ast.walk(a.value) if isinstance(c, ast.Call)}
+                                        if ops <= {"np.maximum", "np.minimum"}:
+                                            flows.add(a.targets[0].id)
+                                if srcs & flows:
+                                    own = "self" in norm(_strip(recv)) or ".to(self.unit)" in norm(recv)
+                                    if own:
+                                        verdict = "element-wise max/min re-wrapped in the receiver's own unit (equivariant)"
+                if wrap is not None and any(k.arg == "dtype" and norm(k.value) == "self.unit" for k in wrap.keywords) \
+                        and norm(_strip(recv)).startswith("self.value"):
+                    ops = [c.func.attr for c in ast.walk(wrap) if isinstance(c, ast.Call) and isinstance(c.func, ast.Attribute)
+                           and isinstance(c.func.value, ast.Name) and c.func.value.id == "np"]
+                    if all(o in EQUIVARIANT_NP for o in ops):
+                        verdict = "equivariant operation re-wrapped in the receiver's own unit"
+                    elif all(o in EQUIVARIANT_NP | UNIT_PARAMETRIC_NP for o in ops):
+                        verdict = f"unit-parametric ({'/'.join(ops)}): checked at each call site"
+            key = f"{rel}:{q} :: {norm(n if isinstance(n, ast.Attribute) else n)[:90]}"
+            if verdict is None:
+                res.findings.append(Finding(
+                    "R-MAG", key,
+                    f"{q} takes a bare number out of `{norm(recv)[:70]}` while its unit is whatever the input was typed "
+                    f"in: the result changes when the same quantity is expressed in another unit (GB/MB, years/days…)",
+                    rel, n.lineno, q))
+            else:
+                counts[verdict.split(" (")[0][:40]] = counts.get(verdict.split(" (")[0][:40], 0) + 1
+                if len(res.samples) < 8:
+                    res.samples.append({"site": f"{rel}:{n.lineno} {q}", "extraction": norm(n)[:80], "verdict": verdict})
+    # call sites of the unit-parametric methods in model code
+    for mod, (rel, tree, src) in sorted(pm.modules.items()):
+        if not (rel.startswith("efootprint/core") or rel.startswith("efootprint/builders")):
+            continue
+        for n in ast.walk(tree):
+            recv = None
+            if isinstance(n, ast.Call) and isinstance(n.func, ast.Attribute) and n.func.attr in ("ceil", "round") \
+                    and not (isinstance(n.func.value, ast.Name) and n.func.value.id in ("np", "math")):
+                recv = n.func.value
+            if isinstance(n, ast.Call) and isinstance(n.func, ast.Name) and n.func.id == "round" and n.args:
+                recv = n.args[0]
+            if recv is None:
+                continue
+            fn, cls = UN.enclosing(n)
+            if fn is None or _is_display(rel, fn) or cls is None:
+                continue
+            # only roundings of model values: the receiver (through its local definitions) reads self.<attr>
+            names, todo, from_self = set(), [recv], False
+            while todo:
+                x = todo.pop()
+                for y in ast.walk(x):
+                    if isinstance(y, ast.Attribute) and isinstance(y.value, ast.Name) and y.value.id == "self":
+                        from_self = True
+                    if isinstance(y, ast.Name) and y.id not in names:
+                        names.add(y.id)
+                        todo += [d for d in UN.local_defs(fn, y.id) if d is not None]
+            if not from_self:
+                continue
+            res.instances += 1
+            q = f"{cls.name}.{fn.name}" if cls is not None else fn.name
+            u = UN.unit_of(recv, fn, cls)
+            if u is None:
+                res.findings.append(Finding(
+                    "R-MAG", f"{rel}:{q} :: {norm(n)[:90]} call-site unit",
+                    f"{q} rounds `{norm(recv)[:60]}` whose unit is not statically fixed: ceil/round of 0.5 TB and of "
+                    f"500 GB differ, so the result depends on the unit the input was typed in", rel, n.lineno, q))
+            elif len(res.samples) < 12:
+                res.samples.append({"site": f"{rel}:{n.lineno} {q}", "rounding": norm(n)[:70], "receiver_unit": u[1]})
+    res.breakdown = counts
+    res.floor = 26
+    return res
